@@ -7,7 +7,9 @@ import (
 	"sort"
 	"time"
 
+	"github.com/bartossh/Computantis/src/gossip"
 	"github.com/bartossh/Computantis/src/protobufcompiled"
+	"github.com/bartossh/Computantis/src/spice"
 	"google.golang.org/protobuf/proto"
 
 	"verifharness/core"
@@ -425,9 +427,121 @@ func c12Unit(w *core.WorkerCtx, rng *rand.Rand, rounds int) {
 	}
 }
 
+// c12PullHarvest: the adversary collects a signature the victim issues for another purpose (the signed request with
+// which a node pulls a missing parent) and presents it as the victim's gossiper entry for that very hash.
+// Topology: O-M, O-N, M-N, M-V, N-V (M adversary). M gets item X first, baits V with a child of X (V asks its peers
+// for X and thereby signs X's hash), then hands X to N listing V before O's own copy reaches N.
+func c12PullHarvest(w *core.WorkerCtx, rng *rand.Rand, rounds int) {
+	r := w.R
+	// indexes: 0=O, 1=N, 2=V, 3=M
+	t := mkTopo("pull-harvest", 4, [][2]int{{0, 3}, {0, 1}, {3, 1}, {3, 2}, {1, 2}})
+	const O, N, V, M = 0, 1, 2, 3
+	net, err := vnet.Build(t.k, t.adj, M)
+	if err != nil {
+		r.Inconc("cannot build network: " + err.Error())
+		return
+	}
+	defer net.Close()
+	for i := 0; i < rounds; i++ {
+		net.ResetExecution()
+		net.Nodes[M].Pulls = nil
+		it, err := c11Originate(net, O, "vrx", 5000+i)
+		if err != nil {
+			continue
+		}
+		desc := fmt.Sprintf("pull-harvest round %d: M baits V to sign the hash of item %s, then lists V when handing the item to N", i, ledger.Hex(it.hash))
+		w.Mark("%s", desc)
+		net.WaitStable(6)
+		var toN, got *vnet.Msg
+		for _, m := range net.Pending() {
+			if m.To == M {
+				net.Deliver(m)
+				got = m
+			} else if m.To == N {
+				toN = m // held back: the adversary is faster than the honest copy
+			}
+		}
+		if got == nil || toN == nil {
+			r.Note("pull-harvest: expected messages not in flight")
+			continue
+		}
+		var msg protobufcompiled.VrxMsgGossip
+		if proto.Unmarshal(got.Bytes, &msg) != nil {
+			continue
+		}
+		// the bait: a valid vertex sealed by M on top of X
+		advA := net.Nodes[M].Actor
+		bt := ledger.ForgeTrx(net.Users[0], net.Users[1].Addr, fmt.Sprintf("bait %d", i), nil, spice.Melange{SupplementaryCurrency: 2}, time.Now().Add(-time.Minute))
+		bait := ledger.ForgeVertex(advA, bt, it.hash, it.hash, msg.Vertex.Weight+1, time.Now().Add(-time.Second))
+		d, sg := advA.W.Sign(append([]byte(advA.Addr), bait.Hash[:]...))
+		bm := &protobufcompiled.VrxMsgGossip{Vertex: gossip.VerifVertexToProtoVertex(&bait), Gossipers: []*protobufcompiled.Gossiper{{Address: advA.Addr, Digest: d[:], Signature: sg}}}
+		bb, _ := proto.Marshal(bm)
+		net.Inject(M, V, "vrx", bait.Hash, bb, false)
+		for _, m := range net.Pending() {
+			if m.From == M && m.To == V {
+				net.Deliver(m)
+			}
+		}
+		// let V's pull goroutines run (they call the peers' GetVertex synchronously)
+		for k := 0; k < 200 && len(net.Nodes[M].Pulls) == 0; k++ {
+			time.Sleep(time.Millisecond)
+		}
+		time.Sleep(5 * time.Millisecond)
+		var captured *protobufcompiled.SignedHash
+		for _, p := range net.Nodes[M].Pulls {
+			if string(p.Data) == string(it.hash[:]) && p.Address == net.Nodes[V].Actor.Addr {
+				captured = p
+			}
+		}
+		own := func() *protobufcompiled.Gossiper {
+			d, s := advA.W.Sign(append([]byte(advA.Addr), it.hash[:]...))
+			return &protobufcompiled.Gossiper{Address: advA.Addr, Digest: d[:], Signature: s}
+		}
+		list := []*protobufcompiled.Gossiper{own()}
+		if captured != nil {
+			list = append(list, &protobufcompiled.Gossiper{Address: captured.Address, Digest: captured.Hash, Signature: captured.Signature})
+			// and the same signature under the digest an entry would carry
+			dg, _ := advA.W.Sign(append([]byte(captured.Address), it.hash[:]...))
+			list = append(list, &protobufcompiled.Gossiper{Address: captured.Address, Digest: dg[:], Signature: captured.Signature})
+		}
+		fm := proto.Clone(&msg).(*protobufcompiled.VrxMsgGossip)
+		fm.Gossipers = list
+		fb, _ := proto.Marshal(fm)
+		net.Inject(M, N, "vrx", it.hash, fb, false)
+		for _, m := range net.Pending() {
+			if m.From == M && m.To == N {
+				net.Deliver(m)
+			}
+		}
+		// now the honest traffic, the held copy included
+		x := &c11Exec{w: w, net: net, t: t, rng: rng, policy: "fifo"}
+		if !x.drive() {
+			r.Inconc("pull-harvest execution did not reach quiescence")
+			continue
+		}
+		c11Retries(net, M)
+		net.Settle()
+		reach := honestReach(t, O, M)
+		c12Judge(w, net, t, it, desc, M, reach, "pull-request-signature-as-entry")
+		r.Eval(1)
+		r.Count("c12_pull_harvest_executions", 1)
+		if captured != nil {
+			r.Count("c12_pull_requests_captured", 1)
+		}
+		r.Nontriv(fmt.Sprintf("pull-harvest/captured=%v", captured != nil))
+		if i == 0 {
+			r.Sample(8, map[string]any{"case": desc, "pull_request_captured": captured != nil, "delivery_order": net.OrderString()})
+		}
+		c11Heal(net, M)
+	}
+}
+
 func c12Worker(w *core.WorkerCtx) {
 	rng := core.Rand(w.Seed, "C12", w.Batch)
 	c12Unit(w, rng, w.Pick(20, 400))
+	if w.Batch%2 == 0 {
+		c12PullHarvest(w, rng, w.Pick(4, 40))
+	}
 	// network level: adversary at every position of small graphs (the origin elsewhere)
 	topos := []topo{
 		mkTopo("kite", 4, [][2]int{{0, 1}, {0, 3}, {3, 1}, {1, 2}}), // origin 0, adversary 3 next to origin and relay 1; node 2 behind relay 1
@@ -481,7 +595,7 @@ func init() {
 	core.Register(&core.Check{
 		Spec: core.Spec{
 			Prop: "C12",
-			Rule: "Same virtual network as C11 with one position played by the harness as a malicious relay (it owns that position's keys only). List classes: random bytes; well-formed entries with a wrong digest; honest nodes' genuine signatures for other items (harvested from earlier traffic), also re-labelled with this item's digest; honest addresses signed with the adversary's key; genuine entries with address/signature swapped between nodes; copies of its own entry also under a victim's address; mixtures with nil/zero parts; the target itself listed; the honest entries for this very item replayed (legitimate); empty list. Unit level: the relay hands a hub an item with such a list: the hub must process it and forward to exactly the peers not covered by entries that really verify (reference = the harness's own ed25519 check of address|item hash). Network level: the relay, adjacent to the origin, gets the item first and injects forged copies to all its neighbours before any honest copy is delivered, or just drops; afterwards PRNG delivery order: every honest node with an honest path to the origin must hold the item and nobody may be skipped. Non-trivial = every list/execution; distinct by (class, item kind, topology, relay position, origin).",
+			Rule: "Same virtual network as C11 with one position played by the harness as a malicious relay (it owns that position's keys only). List classes: random bytes; well-formed entries with a wrong digest; honest nodes' genuine signatures for other items (harvested from earlier traffic), also re-labelled with this item's digest; honest addresses signed with the adversary's key; genuine entries with address/signature swapped between nodes; copies of its own entry also under a victim's address; a signature the victim issued for another purpose (its signed missing-parent request for the item's hash, provoked with a bait vertex) presented as its entry; mixtures with nil/zero parts; the target itself listed; the honest entries for this very item replayed (legitimate); empty list. Unit level: the relay hands a hub an item with such a list: the hub must process it and forward to exactly the peers not covered by entries that really verify (reference = the harness's own ed25519 check of address|item hash). Network level: the relay, adjacent to the origin, gets the item first and injects forged copies to all its neighbours before any honest copy is delivered, or just drops; afterwards PRNG delivery order: every honest node with an honest path to the origin must hold the item and nobody may be skipped. Non-trivial = every list/execution; distinct by (class, item kind, topology, relay position, origin).",
 			Assumptions: []string{"the adversary controls one relay position and cannot forge ed25519 signatures of honest nodes", "lists with nil or short-digest entries are judged by C15 (crash safety)"},
 			MinEvals:    40, MinNontriv: 15,
 		},
